@@ -839,7 +839,7 @@ static const std::vector<std::string>& mutation_kinds()
     static const std::vector<std::string> k = {"drop-table",   "rename-table", "add-table",   "drop-view",      "rename-view", "add-view",
                                                "add-column",   "drop-column",  "rename-column", "change-type",  "add-notnull", "add-default",
                                                "drop-index",   "add-index",    "flip-unique", "reorder-columns",
-                                               "drop-default", "change-default", "drop-notnull", "drop-pk"};
+                                               "drop-default", "change-default", "drop-notnull", "drop-pk", "index-columns"};
     return k;
 }
 static void prop_c17(const vf::Case& c, Ctx& ctx)
@@ -928,6 +928,45 @@ static void prop_c17(const vf::Case& c, Ctx& ctx)
                 std::string nsql = uniq ? std::regex_replace(sql, std::regex("UNIQUE\\s+"), "") : std::regex_replace(sql, std::regex("CREATE\\s+INDEX"), "CREATE UNIQUE INDEX");
                 desc = "FLIP UNIQUE of index " + (*ix)[0];
                 applied = db.exec("DROP INDEX \"" + (*ix)[0] + "\"", &err) && db.exec(nsql, &err);
+            }
+        }
+        else if (kind == "index-columns")
+        {
+            // same index name, same uniqueness, one more column of its table appended to the indexed columns ("change index ... columns")
+            if (auto ix = pick(indices))
+            {
+                std::string sql = (*ix)[2];
+                std::set<std::string> have;
+                for (auto& ic : rows(db.db, "PRAGMA index_info('" + (*ix)[0] + "')"))
+                    have.insert(ic[2]);
+                std::string extra;
+                for (auto& cc : rows(db.db, "PRAGMA table_info('" + (*ix)[1] + "')"))
+                    if (!have.count(cc[1]) && extra.empty())
+                        extra = cc[1];
+                // the column list is the first parenthesis after " ON "
+                size_t on = sql.find(" ON ");
+                size_t open = on == std::string::npos ? std::string::npos : sql.find('(', on);
+                size_t close = std::string::npos;
+                if (open != std::string::npos)
+                {
+                    int depth = 0;
+                    for (size_t k = open; k < sql.size(); ++k)
+                    {
+                        if (sql[k] == '(')
+                            ++depth;
+                        if (sql[k] == ')' && --depth == 0)
+                        {
+                            close = k;
+                            break;
+                        }
+                    }
+                }
+                desc = "ADD COLUMN " + extra + " TO INDEX " + (*ix)[0];
+                if (!extra.empty() && close != std::string::npos)
+                {
+                    std::string nsql = sql.substr(0, close) + ", \"" + extra + "\"" + sql.substr(close);
+                    applied = db.exec("DROP INDEX \"" + (*ix)[0] + "\"", &err) && db.exec(nsql, &err);
+                }
             }
         }
         else
@@ -1228,7 +1267,7 @@ static std::vector<C17Tuple> c17_build_enum(bool all_kinds)
     };
     // quick tier: whole-element kinds for every table / view / index, and the three column kinds that need no precondition
     std::set<std::string> wanted = {"drop-table", "rename-table", "add-table", "drop-view", "rename-view", "add-view", "drop-index", "flip-unique",
-                                    "drop-column", "rename-column", "change-type", "add-notnull"};
+                                    "drop-column", "rename-column", "change-type", "add-notnull", "index-columns"};
     auto want = [&](const std::string& k) { return all_kinds || wanted.count(k); };
     for (uint64_t si = 0; si < schemas_ext().size(); ++si)
     {
@@ -1265,6 +1304,7 @@ static std::vector<C17Tuple> c17_build_enum(bool all_kinds)
             {
                 push("drop-index", x, 0);
                 push("flip-unique", x, 0);
+                push("index-columns", x, 0);
             }
             push("add-table", 0, 0);
             push("add-view", 0, 0);
